@@ -413,6 +413,27 @@ class Specialiser:
         return [(True, a), (False, b)]
 
     def cond_key(self, test, s):
+        """the text a dynamic condition is remembered under.  A comparison of a decoded field with a layout constant
+        (`values['tag'] != TPM_ST.SESSIONS`, or the same through a local that holds the field's decode result) gets one
+        spelling, so the framing rules recognise it however the walker gets hold of the value."""
+        if isinstance(test, ast.Compare) and len(test.ops) == 1 and isinstance(test.ops[0], (ast.Eq, ast.NotEq)):
+            try:
+                a, b = self.ev(test.left, s), self.ev(test.comparators[0], s)
+            except AnalysisError:
+                return norm(test)
+
+            def field_of(v):
+                if v[0] == "value" and isinstance(v[1], str):
+                    return v[1]
+                if v[0] == "result" and isinstance(v[1], tuple) and v[2] == 1 and isinstance(v[1][0], str):
+                    return v[1][0]
+                return None
+            for x, y, y_node in ((a, b, test.comparators[0]), (b, a, test.left)):
+                f = field_of(x)
+                const_like = y[0] == "member" or (isinstance(y_node, ast.Attribute) and isinstance(y_node.value, ast.Name)
+                                                  and y_node.value.id.isupper() and y_node.attr.isupper())
+                if f is not None and const_like:
+                    return f"values['{f}'] {'==' if isinstance(test.ops[0], ast.Eq) else '!='} {norm(y_node)}"
         return norm(test)
 
     def region_member(self, region_expr, list_expr, s):
@@ -447,6 +468,10 @@ class Specialiser:
             op = test.ops[0]
             a, b = self.ev(test.left, s), self.ev(test.comparators[0], s)
             if isinstance(op, (ast.In, ast.NotIn)):
+                rhs = test.comparators[0]
+                if a[0] == "const" and isinstance(rhs, ast.Dict) and all(isinstance(x, ast.Constant) for x in rhs.keys):
+                    r = a[1] in [x.value for x in rhs.keys]
+                    return r if isinstance(op, ast.In) else not r
                 if b[0] == "dict" and a[0] == "const":
                     r = a[1] in s.values.get(b[1], set())
                     return r if isinstance(op, ast.In) else not r
@@ -533,6 +558,15 @@ class Specialiser:
             if b[0] == "global":
                 return ("global", f"{b[1]}.{e.attr}")
             return ("attr", b, e.attr)
+        if isinstance(e, ast.Subscript) and isinstance(e.value, ast.Dict) and e.value.keys and \
+                all(isinstance(x, ast.Constant) for x in e.value.keys):
+            # a lookup in a literal table with a key that is known for this layout
+            k = self.ev(e.slice, s)
+            if k[0] == "const":
+                for kx, vx in zip(e.value.keys, e.value.values):
+                    if kx.value == k[1]:
+                        return self.ev(vx, s)
+                return ("missing", "<literal table>", k[1])
         if isinstance(e, ast.Subscript):
             b = self.ev(e.value, s)
             k = self.ev(e.slice, s)
